@@ -42,3 +42,9 @@ def run(ctx):
     ]
     common.standard(ctx, "GopModel.Props.C04", "c04", 40, 400, RULE,
                     extract=("rangeloop",), driver="drv_range", post=post)
+
+
+def replay(ctx, obj):
+    from .. import replay as rp
+    ctx.driver_exe = "drv_range"
+    return rp.generic(ctx, obj)
